@@ -74,7 +74,7 @@ structure PEnvOK (e : Env) : Prop where
   jj : e.jcol ≤ e.jj
   off0 : 0 ≤ e.off
 
-structure Sim (e : Env) (M0 : Int → Int) (P0 : List Int) (n0p n0c : Int) (X : List Int) (ps : St) (cs : ColDfs.St) : Prop where
+structure Sim (e : Env) (B : St) (M0 : Int → Int) (P0 : List Int) (n0p n0c : Int) (X : List Int) (ps : St) (cs : ColDfs.St) : Prop where
   lsub : ∀ x : Int, 0 ≤ x → x < e.lsub.size → rd cs.lsub x = rd e.lsub x
   nextl : (e.lsub.size : Int) ≤ cs.nextl
   szM : (ps.marker.size : Int) = 3 * e.m
@@ -97,6 +97,9 @@ structure Sim (e : Env) (M0 : Int → Int) (P0 : List Int) (n0p n0c : Int) (X : 
   sgrng : ∀ t ∈ slice ps.segrep 0 ps.nseg, 0 ≤ t ∧ t < e.jcol ∧ e.jcol ≤ PanelDfs.m1 e ps t
   szS : e.jcol ≤ ps.segrep.size
   segpre : slice ps.segrep 0 n0p = P0
+  rsz : ps.repfnz.size = B.repfnz.size
+  rfr : ∀ x, (x < e.off ∨ e.off + e.m ≤ x) → rd ps.repfnz x = rd B.repfnz x
+  mfr : ∀ r, 0 ≤ r → r < e.m → rd ps.marker r = e.jj ∨ rd ps.marker r = rd B.marker r
 
 /-- the parent of every discovered representative is EMPTY or a discovered representative whose saved
 position lies in its own list -/
@@ -113,7 +116,7 @@ structure Inv (e : Env) (c : Cfg) : Prop where
   xd : rd e.xlsub c.krep ≤ c.xdfs
   P : PInv e c.st
 
-variable {e : Env} {M0 : Int → Int} {P0 : List Int} {n0p n0c : Int}
+variable {e : Env} {B : St} {M0 : Int → Int} {P0 : List Int} {n0p n0c : Int}
 
 theorem PInv.of_disc {st st' : St} (h : PInv e st) (hd : ∀ t, fnz e st' t ≠ EMPTY ↔ fnz e st t ≠ EMPTY)
     (h2 : st'.parent = st.parent) (h3 : st'.xplore = st.xplore) : PInv e st' := by
@@ -197,8 +200,8 @@ theorem PInv.rootStart {st st' : St} (h : PInv e st) {krep kperm : Int}
 section prim
 variable {X : List Int} {ps : St} {cs : ColDfs.St}
 
-theorem Sim.markRow (h : Sim e M0 P0 n0p n0c X ps cs) {r : Int} (r0 : 0 ≤ r) (r1 : r < e.m) :
-    Sim e M0 P0 n0p n0c X { ps with marker := wr ps.marker r e.jj }
+theorem Sim.markRow (h : Sim e B M0 P0 n0p n0c X ps cs) {r : Int} (r0 : 0 ≤ r) (r1 : r < e.m) :
+    Sim e B M0 P0 n0p n0c X { ps with marker := wr ps.marker r e.jj }
       { cs with marker := wr cs.marker (2 * e.cenv.m + r) e.cenv.jcol } := by
   have hsz := h.szM
   have hszc := h.szMc
@@ -221,12 +224,17 @@ theorem Sim.markRow (h : Sim e M0 P0 n0p n0c X ps cs) {r : Int} (r0 : 0 ≤ r) (
     m1 := fun t t0 t1 => by rw [hm1 t t0]; exact h.m1 t t0 t1
     sgrng := fun t ht => by
       obtain ⟨a, b, c⟩ := h.sgrng t ht
-      exact ⟨a, b, by rw [hm1 t a]; exact c⟩ }
+      exact ⟨a, b, by rw [hm1 t a]; exact c⟩
+    mfr := fun q q0 q1 => by
+      show rd (wr ps.marker r e.jj) q = e.jj ∨ rd (wr ps.marker r e.jj) q = _
+      by_cases hq : q = r
+      · subst hq; left; exact rd_wr_eq q0 (by omega)
+      · rw [rd_wr_ne hq]; exact h.mfr q q0 q1 }
 
-theorem Sim.append (h : Sim e M0 P0 n0p n0c X ps cs) (row mark : Int) :
-    Sim e M0 P0 n0p n0c X (appendRow ps row) (ColDfs.appendRow e.cenv cs row mark) := by
+theorem Sim.append (h : Sim e B M0 P0 n0p n0c X ps cs) (row mark : Int) :
+    Sim e B M0 P0 n0p n0c X (appendRow ps row) (ColDfs.appendRow e.cenv cs row mark) := by
   have hnl := h.nextl
-  have key : Sim e M0 P0 n0p n0c X (appendRow ps row) { cs with lsub := wr cs.lsub cs.nextl row, nextl := cs.nextl + 1 } :=
+  have key : Sim e B M0 P0 n0p n0c X (appendRow ps row) { cs with lsub := wr cs.lsub cs.nextl row, nextl := cs.nextl + 1 } :=
     { h with
       lsub := fun x x0 x1 => by
         show rd (wr cs.lsub cs.nextl row) x = _
@@ -237,9 +245,9 @@ theorem Sim.append (h : Sim e M0 P0 n0p n0c X ps cs) (row mark : Int) :
   · exact { key with }
   · exact key
 
-theorem Sim.lower (h : Sim e M0 P0 n0p n0c X ps cs) (hE : PEnvOK e) {rep kp myfnz myfnz' : Int} (r0 : 0 ≤ rep) (r1 : rep < e.jcol)
+theorem Sim.lower (h : Sim e B M0 P0 n0p n0c X ps cs) (hE : PEnvOK e) {rep kp myfnz myfnz' : Int} (r0 : 0 ≤ rep) (r1 : rep < e.jcol)
     (hmy : myfnz = myfnz') :
-    Sim e M0 P0 n0p n0c X (lowerFnz e ps rep myfnz kp) (ColDfs.lowerFnz cs rep myfnz' kp) := by
+    Sim e B M0 P0 n0p n0c X (lowerFnz e ps rep myfnz kp) (ColDfs.lowerFnz cs rep myfnz' kp) := by
   subst hmy
   unfold lowerFnz ColDfs.lowerFnz
   have hjm := hE.jm
@@ -256,7 +264,11 @@ theorem Sim.lower (h : Sim e M0 P0 n0p n0c X ps cs) (hE : PEnvOK e) {rep kp myfn
           rw [rd_wr_eq s0 (by have := h.szRc; omega)]
         · rw [fnz_wr_ne hs]
           show _ = rd (wr cs.repfnz rep kp) s
-          rw [rd_wr_ne hs]; exact h.fnz s s0 s1 }
+          rw [rd_wr_ne hs]; exact h.fnz s s0 s1
+      rsz := by show (wr ps.repfnz _ _).size = _; rw [size_wr]; exact h.rsz
+      rfr := fun x hx => by
+        show rd (wr ps.repfnz (e.off + rep) kp) x = _
+        rw [rd_wr_ne (by omega)]; exact h.rfr x hx }
   · exact h
 
 end prim
@@ -285,8 +297,8 @@ section prim2
 variable {X : List Int} {ps : St} {cs : ColDfs.St}
 
 /-- lines 234-238 against `segrep[nseg++] = krep` of column_dfs -/
-theorem Sim.record (h : Sim e M0 P0 n0p n0c X ps cs) (hE : PEnvOK e) {krep : Int} (k0 : 0 ≤ krep) (k1 : krep < e.jcol) :
-    Sim e M0 P0 n0p n0c (X ++ [krep]) (record e ps krep) { cs with segrep := wr cs.segrep cs.nseg krep, nseg := cs.nseg + 1 } := by
+theorem Sim.record (h : Sim e B M0 P0 n0p n0c X ps cs) (hE : PEnvOK e) {krep : Int} (k0 : 0 ≤ krep) (k1 : krep < e.jcol) :
+    Sim e B M0 P0 n0p n0c (X ++ [krep]) (record e ps krep) { cs with segrep := wr cs.segrep cs.nseg krep, nseg := cs.nseg + 1 } := by
   have hjj := hE.jj
   have hjm := hE.jm
   have hcn := h.cnseg
@@ -376,7 +388,10 @@ theorem Sim.record (h : Sim e M0 P0 n0p n0c X ps cs) (hE : PEnvOK e) {krep : Int
       szS := by show _ ≤ ((wr ps.segrep _ _).size : Int); rw [size_wr]; exact h.szS
       segpre := by
         show slice (wr ps.segrep ps.nseg krep) 0 n0p = P0
-        rw [slice_congr (le_refl _) (fun y _ hy => rd_wr_ne (by omega))]; exact h.segpre }
+        rw [slice_congr (le_refl _) (fun y _ hy => rd_wr_ne (by omega))]; exact h.segpre
+      mfr := fun r r0 r1 => by
+        show rd (wr ps.marker (e.m + krep) e.jj) r = e.jj ∨ rd (wr ps.marker (e.m + krep) e.jj) r = _
+        rw [rd_wr_ne (by omega)]; exact h.mfr r r0 r1 }
   · have hT' : ¬ (M0 krep < e.jcol ∧ krep ∉ pushNew e.jcol M0 X) := fun hh => hT (htest.mpr hh)
     simp only [hT, if_false]
     have hpn : pushNew e.jcol M0 (X ++ [krep]) = pushNew e.jcol M0 X := by
@@ -431,8 +446,8 @@ theorem PEnvOK.rep (hE : PEnvOK e) {k : Int} (k0 : 0 ≤ k) (k1 : k < e.jcol) :
     k ≤ repOf e.cenv k ∧ repOf e.cenv k < e.jcol ∧ repOf e.cenv (repOf e.cenv k) = repOf e.cenv k := hE.env.rep k k0 k1
 
 theorem rowStep_sim (hE : PEnvOK e) {X : List Int} {pc : Cfg} {cs : ColDfs.St}
-    (hS : Sim e M0 P0 n0p n0c X pc.st cs) (hI : Inv e pc) (hlt : pc.xdfs < pc.maxdfs) :
-    ∃ cs', ColDfs.rowStep e.cenv (cc pc cs) = cc (rowStep e pc) cs' ∧ Sim e M0 P0 n0p n0c X (rowStep e pc).st cs' ∧ Inv e (rowStep e pc) := by
+    (hS : Sim e B M0 P0 n0p n0c X pc.st cs) (hI : Inv e pc) (hlt : pc.xdfs < pc.maxdfs) :
+    ∃ cs', ColDfs.rowStep e.cenv (cc pc cs) = cc (rowStep e pc) cs' ∧ Sim e B M0 P0 n0p n0c X (rowStep e pc).st cs' ∧ Inv e (rowStep e pc) := by
   obtain ⟨k0, k1, k2⟩ := hI.k0
   obtain ⟨l0, l1, l2, l3⟩ := hE.lists k0 k1 k2
   have hxd := hI.xd
@@ -493,7 +508,11 @@ theorem rowStep_sim (hE : PEnvOK e) {X : List Int} {pc : Cfg} {cs : ColDfs.St}
             parent := by show wr pc.st.parent _ _ = wr cs.parent _ _; rw [hS.parent]; rfl
             xplore := by show wr pc.st.xplore _ _ = wr cs.xplore _ _; rw [hS.xplore]; rfl
             szP := by show _ ≤ ((wr pc.st.parent _ _).size : Int); rw [size_wr]; exact hS.szP
-            szX := by show _ ≤ ((wr pc.st.xplore _ _).size : Int); rw [size_wr]; exact hS.szX }
+            szX := by show _ ≤ ((wr pc.st.xplore _ _).size : Int); rw [size_wr]; exact hS.szX
+            rsz := by show (wr pc.st.repfnz _ _).size = _; rw [size_wr]; exact hS.rsz
+            rfr := fun x hx => by
+              show rd (wr pc.st.repfnz (e.off + repOf e.cenv (rd e.perm_r (rd e.lsub pc.xdfs))) (rd e.perm_r (rd e.lsub pc.xdfs))) x = _
+              rw [rd_wr_ne (by omega)]; exact hS.rfr x hx }
         · refine { k0 := ⟨hc0, r2, r3⟩, kd := ?_, mx := rfl, xd := le_refl _, P := ?_ }
           · show rd (wr pc.st.repfnz (e.off + _) _) (e.off + _) ≠ EMPTY
             rw [rd_wr_eq (by omega) (by have := hS.szR; omega)]; exact hp
@@ -510,11 +529,11 @@ theorem rowStep_sim (hE : PEnvOK e) {X : List Int} {pc : Cfg} {cs : ColDfs.St}
                 P := hP1.of_disc hd (lowerFnz_parent _ _ _ _ _).1 (lowerFnz_parent _ _ _ _ _).2 }
 
 theorem popStep_sim (hE : PEnvOK e) {X : List Int} {pc : Cfg} {cs : ColDfs.St}
-    (hS : Sim e M0 P0 n0p n0c X pc.st cs) (hI : Inv e pc) :
+    (hS : Sim e B M0 P0 n0p n0c X pc.st cs) (hI : Inv e pc) :
     (∃ ps' cs', popStep e pc = .inr ps' ∧ ColDfs.popStep e.cenv (cc pc cs) = .inr cs' ∧
-        Sim e M0 P0 n0p n0c (X ++ [pc.krep]) ps' cs' ∧ PInv e ps') ∨
+        Sim e B M0 P0 n0p n0c (X ++ [pc.krep]) ps' cs' ∧ PInv e ps') ∨
     (∃ pc' cs', popStep e pc = .inl pc' ∧ ColDfs.popStep e.cenv (cc pc cs) = .inl (cc pc' cs') ∧
-        Sim e M0 P0 n0p n0c (X ++ [pc.krep]) pc'.st cs' ∧ Inv e pc') := by
+        Sim e B M0 P0 n0p n0c (X ++ [pc.krep]) pc'.st cs' ∧ Inv e pc') := by
   obtain ⟨k0, k1, k2⟩ := hI.k0
   have hS' := hS.record hE k0 k1
   obtain ⟨q1, q2, q3⟩ := record_parent e pc.st pc.krep
@@ -542,8 +561,8 @@ theorem popStep_sim (hE : PEnvOK e) {X : List Int} {pc : Cfg} {cs : ColDfs.St}
       rfl
 
 theorem run_sim (hE : PEnvOK e) : ∀ (F : Nat) (X : List Int) (pc : Cfg) (cs cs' : ColDfs.St),
-    Sim e M0 P0 n0p n0c X pc.st cs → Inv e pc → ColDfs.run e.cenv F (cc pc cs) = some cs' →
-    ∃ ps' X', run e F pc = some ps' ∧ Sim e M0 P0 n0p n0c X' ps' cs' ∧ PInv e ps'
+    Sim e B M0 P0 n0p n0c X pc.st cs → Inv e pc → ColDfs.run e.cenv F (cc pc cs) = some cs' →
+    ∃ ps' X', run e F pc = some ps' ∧ Sim e B M0 P0 n0p n0c X' ps' cs' ∧ PInv e ps'
   | 0, _, _, _, _, _, _, h => by simp [ColDfs.run] at h
   | F + 1, X, pc, cs, cs', hS, hI, h => by
     unfold ColDfs.run ColDfs.step at h
@@ -571,9 +590,9 @@ theorem run_sim (hE : PEnvOK e) : ∀ (F : Nat) (X : List Int) (pc : Cfg) (cs cs
 /-! ### one nonzero of the column, the column -/
 
 theorem rootStep_sim (hE : PEnvOK e) {fuel : Nat} {X : List Int} {ps : St} {cs cs' : ColDfs.St} {krow : Int}
-    (hS : Sim e M0 P0 n0p n0c X ps cs) (hP : PInv e ps) (r0 : 0 ≤ krow) (r1 : krow < e.m)
+    (hS : Sim e B M0 P0 n0p n0c X ps cs) (hP : PInv e ps) (r0 : 0 ≤ krow) (r1 : krow < e.m)
     (h : ColDfs.rootStep e.cenv fuel cs krow = some cs') :
-    ∃ ps' X', rootStep e fuel ps krow = some ps' ∧ Sim e M0 P0 n0p n0c X' ps' cs' ∧ PInv e ps' := by
+    ∃ ps' X', rootStep e fuel ps krow = some ps' ∧ Sim e B M0 P0 n0p n0c X' ps' cs' ∧ PInv e ps' := by
   have hmkiff := hS.mark _ r0 r1
   have hjm := hE.jm
   have hoff := hE.off0
@@ -609,7 +628,7 @@ theorem rootStep_sim (hE : PEnvOK e) {fuel : Nat} {X : List Int} {ps : St} {cs c
           show rd cs.repfnz (repOf e.cenv (rd e.perm_r krow)) = EMPTY
           rw [← hf]; exact h3
         simp only [h3a, h3b, ne_eq, not_true_eq_false, if_false] at h ⊢
-        have hS2 : Sim e M0 P0 n0p n0c X { ps with marker := wr ps.marker krow e.jj, parent := wr ps.parent (repOf e.cenv (rd e.perm_r krow)) EMPTY, repfnz := wr ps.repfnz (e.off + repOf e.cenv (rd e.perm_r krow)) (rd e.perm_r krow) } { cs with marker := wr cs.marker (2 * e.cenv.m + krow) e.cenv.jcol, parent := wr cs.parent (repOf e.cenv (rd e.perm_r krow)) EMPTY, repfnz := wr cs.repfnz (repOf e.cenv (rd e.perm_r krow)) (rd e.perm_r krow) } :=
+        have hS2 : Sim e B M0 P0 n0p n0c X { ps with marker := wr ps.marker krow e.jj, parent := wr ps.parent (repOf e.cenv (rd e.perm_r krow)) EMPTY, repfnz := wr ps.repfnz (e.off + repOf e.cenv (rd e.perm_r krow)) (rd e.perm_r krow) } { cs with marker := wr cs.marker (2 * e.cenv.m + krow) e.cenv.jcol, parent := wr cs.parent (repOf e.cenv (rd e.perm_r krow)) EMPTY, repfnz := wr cs.repfnz (repOf e.cenv (rd e.perm_r krow)) (rd e.perm_r krow) } :=
           { hS1 with
             szR := by show _ ≤ ((wr ps.repfnz _ _).size : Int); rw [size_wr]; exact hS.szR
             szRc := by show _ ≤ ((wr cs.repfnz _ _).size : Int); rw [size_wr]; exact hS.szRc
@@ -623,7 +642,11 @@ theorem rootStep_sim (hE : PEnvOK e) {fuel : Nat} {X : List Int} {ps : St} {cs c
                   rd (wr cs.repfnz (repOf e.cenv (rd e.perm_r krow)) (rd e.perm_r krow)) s
                 rw [rd_wr_ne (by omega), rd_wr_ne hs]; exact hS.fnz s s0 s1
             parent := by show wr ps.parent _ _ = wr cs.parent _ _; rw [hS.parent]
-            szP := by show _ ≤ ((wr ps.parent _ _).size : Int); rw [size_wr]; exact hS.szP }
+            szP := by show _ ≤ ((wr ps.parent _ _).size : Int); rw [size_wr]; exact hS.szP
+            rsz := by show (wr ps.repfnz _ _).size = _; rw [size_wr]; exact hS.rsz
+            rfr := fun x hx => by
+              show rd (wr ps.repfnz (e.off + repOf e.cenv (rd e.perm_r krow)) (rd e.perm_r krow)) x = _
+              rw [rd_wr_ne (by omega)]; exact hS.rfr x hx }
         have hI2 : Inv e (Cfg.mk (repOf e.cenv (rd e.perm_r krow)) (rd e.xlsub (repOf e.cenv (rd e.perm_r krow))) (rd e.xprune (repOf e.cenv (rd e.perm_r krow))) { ps with marker := wr ps.marker krow e.jj, parent := wr ps.parent (repOf e.cenv (rd e.perm_r krow)) EMPTY, repfnz := wr ps.repfnz (e.off + repOf e.cenv (rd e.perm_r krow)) (rd e.perm_r krow) }) := by
           refine { k0 := ⟨hc0, q2, q3⟩, kd := ?_, mx := rfl, xd := le_refl _, P := ?_ }
           · show rd (wr ps.repfnz (e.off + _) _) (e.off + _) ≠ EMPTY
@@ -643,9 +666,9 @@ theorem rootStep_sim (hE : PEnvOK e) {fuel : Nat} {X : List Int} {ps : St} {cs c
         exact hP1.of_disc hd (lowerFnz_parent _ _ _ _ _).1 (lowerFnz_parent _ _ _ _ _).2
 
 theorem search_sim (hE : PEnvOK e) {fuel : Nat} : ∀ (rows : List Int) (X : List Int) (ps : St) (cs cs' : ColDfs.St),
-    Sim e M0 P0 n0p n0c X ps cs → PInv e ps → (∀ r ∈ rows, 0 ≤ r ∧ r < e.m) →
+    Sim e B M0 P0 n0p n0c X ps cs → PInv e ps → (∀ r ∈ rows, 0 ≤ r ∧ r < e.m) →
     ColDfs.search e.cenv fuel rows cs = some cs' →
-    ∃ ps' X', search e fuel rows ps = some ps' ∧ Sim e M0 P0 n0p n0c X' ps' cs' ∧ PInv e ps'
+    ∃ ps' X', search e fuel rows ps = some ps' ∧ Sim e B M0 P0 n0p n0c X' ps' cs' ∧ PInv e ps'
   | [], X, ps, cs, cs', hS, hP, _, h => by
     simp only [ColDfs.search] at h; cases h
     exact ⟨ps, X, rfl, hS, hP⟩
@@ -707,7 +730,7 @@ theorem companion_mk2 (_hC : ColOK e ps) {r : Int} (r0 : 0 ≤ r) (r1 : r < e.m)
   exact rd_replicate (by omega) (by omega)
 
 theorem companion_sim (hC : ColOK e ps) :
-    Sim e (m1 e ps) (slice ps.segrep 0 ps.nseg) ps.nseg 0 [] ps (companion e ps) where
+    Sim e ps (m1 e ps) (slice ps.segrep 0 ps.nseg) ps.nseg 0 [] ps (companion e ps) where
   lsub := fun x x0 x1 => rd_append_left x0 x1
   nextl := le_refl _
   szM := hC.szM
@@ -743,6 +766,9 @@ theorem companion_sim (hC : ColOK e ps) :
   sgrng := hC.sgrng
   szS := hC.szS
   segpre := rfl
+  rsz := rfl
+  rfr := fun _ _ => rfl
+  mfr := fun _ _ _ => Or.inr rfl
 
 theorem companion_root (hC : ColOK e ps) :
     ColDfs.Root (e := e.cenv) (L := e.lsub) (nextl0 := e.lsub.size) [] (companion e ps) := by
@@ -787,7 +813,11 @@ theorem panelCol_eq_dfsList (hC : ColOK e ps) {fuel : Nat} (hfuel : (e.jcol.toNa
       (∀ t, 0 ≤ t → t < e.jcol → m1 e ps' t =
         if t ∈ (post.reverse.map Int.ofNat).filter (fun t => decide (m1 e ps t < e.jcol)) then e.jj else m1 e ps t) ∧
       (slice ps'.segrep 0 ps'.nseg).Nodup ∧
-      (∀ t ∈ slice ps'.segrep 0 ps'.nseg, 0 ≤ t ∧ t < e.jcol ∧ e.jcol ≤ m1 e ps' t) := by
+      (∀ t ∈ slice ps'.segrep 0 ps'.nseg, 0 ≤ t ∧ t < e.jcol ∧ e.jcol ≤ m1 e ps' t) ∧
+      ((∀ s ∈ post, (s : Int) < e.jcol) ∧ ps'.repfnz.size = ps.repfnz.size ∧
+       (∀ x, (x < e.off ∨ e.off + e.m ≤ x) → rd ps'.repfnz x = rd ps.repfnz x) ∧
+       (∀ r, 0 ≤ r → r < e.m → rd ps'.marker r = e.jj ∨ rd ps'.marker r = rd ps.marker r) ∧
+       (ps'.marker.size : Int) = 3 * e.m ∧ e.jcol ≤ ps'.parent.size ∧ e.jcol ≤ ps'.xplore.size ∧ e.jcol ≤ ps'.segrep.size) := by
   have hfuel' : (e.cenv.jcol.toNat + 1) * ColDfs.stepK (e.lsub.size : Int) ≤ fuel := by
     unfold ColDfs.stepK
     have : ((e.lsub.size : Int)).toNat = e.lsub.size := by omega
@@ -813,7 +843,8 @@ theorem panelCol_eq_dfsList (hC : ColOK e ps) {fuel : Nat} (hfuel : (e.jcol.toNa
     exact Nodup.map_on (fun a _ b _ h => Int.ofNat.inj h) (nodup_reverse.mpr hR'.pok.nodup)
   have hpn := pushNew_eq_filter e.jcol (m1 e ps) hXnd
   rw [hX] at hpn
-  refine ⟨ps', post', g, ?_, ?_, hS'.hn0p.2, ?_, hS'.segpre, ?_, hS'.sgnd, hS'.sgrng⟩
+  refine ⟨ps', post', g, ?_, ?_, hS'.hn0p.2, ?_, hS'.segpre, ?_, hS'.sgnd, hS'.sgrng,
+    hR'.pok.lt, hS'.rsz, hS'.rfr, hS'.mfr, hS'.szM, hS'.szP, hS'.szX, hS'.szS⟩
   · rw [hp, dfsList, foldl_map]; rfl
   · intro s hs'
     have hj : 0 ≤ e.jcol := hC.env.env.jcol0
@@ -926,5 +957,188 @@ theorem wfPanelIn_rows (h : wfPanelIn i = true) {k : Nat} (hk : (k : Int) < i.w)
   (wfPanelIn_unpack h).2.2.2.2.2.2.2.2.2 k hk
 
 end wf
+
+/-! ### the loop over the panel columns -/
+
+section panel
+variable {V : Type} {i : Input V}
+open Slu.ColDfs (slice_append)
+
+/-- reverse postorder of the recursive search for panel column `jcol + k` (nothing visited on entry) -/
+def colPost (i : Input V) (k : Nat) : List Nat :=
+  dfsList (ColDfs.adjR i.cenv i.lsub) i.jcol.toNat
+    ((ColDfs.rootCols i.cenv (colRows i (i.jcol + k))).map (ColDfs.repN i.cenv)) []
+
+/-- what `segrep` holds after the first `k` panel columns: for each column in turn its postorder, restricted
+to the representatives no earlier column has recorded -/
+def segSpec (i : Input V) : Nat → List Int
+  | 0 => []
+  | k + 1 => segSpec i k ++ ((colPost i k).reverse.map Int.ofNat).filter (fun t => decide (t ∉ segSpec i k))
+
+theorem mul_bound {k w m : Int} (hk : k + 1 ≤ w) (hm : 0 ≤ m) : k * m + m ≤ w * m := by
+  have := Int.mul_le_mul_of_nonneg_right hk hm
+  rw [Int.add_mul, Int.one_mul] at this; exact this
+
+/-- the state between two panel columns (`k` columns done) -/
+structure LoopInv (i : Input V) (k : Nat) (st : St) : Prop where
+  szM : (st.marker.size : Int) = 3 * i.m
+  szR : (st.repfnz.size : Int) = i.w * i.m
+  szP : i.jcol ≤ st.parent.size
+  szX : i.jcol ≤ st.xplore.size
+  szS : i.jcol ≤ st.segrep.size
+  fresh : ∀ x : Int, k * i.m ≤ x → x < i.w * i.m → rd st.repfnz x = EMPTY
+  done : ∀ k' : Nat, k' < k → ∀ s : Nat, (s : Int) < i.jcol → (rd st.repfnz (k' * i.m + s) ≠ EMPTY ↔ s ∈ colPost i k')
+  mark : ∀ r, 0 ≤ r → r < i.m → rd st.marker r < i.jcol + k
+  nseg0 : 0 ≤ st.nseg
+  seg : slice st.segrep 0 st.nseg = segSpec i k
+  sgnd : (segSpec i k).Nodup
+  m1iff : ∀ t, 0 ≤ t → t < i.jcol → (i.jcol ≤ rd st.marker (i.m + t) ↔ t ∈ segSpec i k)
+  segrng : ∀ t ∈ segSpec i k, 0 ≤ t ∧ t < i.jcol
+
+theorem loopInv0 (h : wfPanelIn i = true) : LoopInv i 0 i.st0 := by
+  obtain ⟨⟨a1, a2, a3, a4, a5⟩, ⟨b1, b2, b3, b4⟩, _, _, hmk, hmk1, hfresh, _, _, _⟩ := wfPanelIn_unpack h
+  refine { szM := a5, szR := b1, szP := b2, szX := b3, szS := b4, fresh := ?_, done := fun k' hk' => absurd hk' (by omega),
+           mark := ?_, nseg0 := le_refl _, seg := slice_nil _ _, sgnd := nodup_nil, m1iff := ?_, segrng := by simp [segSpec] }
+  · intro x x0 x1
+    have hx : 0 ≤ x := by simpa using x0
+    obtain ⟨n, rfl⟩ := Int.eq_ofNat_of_zero_le hx
+    exact hfresh n x1
+  · intro r r0 r1
+    obtain ⟨n, rfl⟩ := Int.eq_ofNat_of_zero_le r0
+    have := hmk n r1
+    show rd i.marker n < i.jcol + ((0 : Nat) : Int)
+    simpa using this
+  · intro t t0 t1
+    obtain ⟨n, rfl⟩ := Int.eq_ofNat_of_zero_le t0
+    have := hmk1 n t1
+    show i.jcol ≤ rd i.marker (i.m + n) ↔ _
+    simp only [segSpec, not_mem_nil, iff_false]
+    omega
+
+theorem colOK_of_loopInv (h : wfPanelIn i = true) {k : Nat} {st : St} (hk : (k : Int) < i.w) (hL : LoopInv i k st) :
+    ColOK (i.env (i.jcol + k)) { st with nextl := (i.env (i.jcol + k)).off } := by
+  obtain ⟨⟨a1, a2, a3, a4, a5⟩, _⟩ := wfPanelIn_unpack h
+  have hoff := env_off i (k : Int)
+  have hm0 : 0 ≤ i.m := by omega
+  have hmb := mul_bound (k := k) (w := i.w) (m := i.m) (by omega) hm0
+  refine { env := wfPanelIn_penv h (by omega), szM := hL.szM, szR := ?_, szP := hL.szP, szX := hL.szX, szS := hL.szS,
+           fresh := ?_, unmarked := ?_, nseg0 := hL.nseg0, sgnd := ?_, sgrng := ?_ }
+  · rw [hoff]; show (k : Int) * i.m + i.m ≤ (st.repfnz.size : Int); rw [hL.szR]; exact hmb
+  · intro s s0 s1
+    unfold fnz; rw [hoff]
+    have s1' : s < i.jcol := s1
+    exact hL.fresh _ (by omega) (by omega)
+  · intro r r0 r1
+    have := hL.mark r r0 r1
+    show rd st.marker r ≠ i.jcol + k
+    omega
+  · show (slice st.segrep 0 st.nseg).Nodup
+    rw [hL.seg]; exact hL.sgnd
+  · intro t ht
+    have ht' : t ∈ slice st.segrep 0 st.nseg := ht
+    rw [hL.seg] at ht'
+    obtain ⟨a, b⟩ := hL.segrng t ht'
+    exact ⟨a, b, (hL.m1iff t a b).mpr ht'⟩
+
+theorem loop_step (h : wfPanelIn i = true) {k : Nat} {st : St} (hk : (k : Int) < i.w) (hL : LoopInv i k st) :
+    ∃ ps', search (i.env (i.jcol + k)) (fuelBound i) (colRows i (i.jcol + k)) { st with nextl := (i.env (i.jcol + k)).off } = some ps' ∧
+      LoopInv i (k + 1) ps' := by
+  obtain ⟨⟨a1, a2, a3, a4, a5⟩, _⟩ := wfPanelIn_unpack h
+  have hm0 : 0 ≤ i.m := by omega
+  have hoff := env_off i (k : Int)
+  obtain ⟨ps', post, g, hpost, hvis, hle, hseg, hpre, hm1, hnd, hrng, hlt, hrsz, hrfr, hmfr, hszM, hszP, hszX, hszS⟩ :=
+    panelCol_eq_dfsList (colOK_of_loopInv h hk hL) (fuel := fuelBound i) (le_refl _) (wfPanelIn_rows h hk)
+  have hpost' : post = colPost i k := hpost
+  subst hpost'
+  rw [hoff] at hrfr
+  have hF : ((colPost i k).reverse.map Int.ofNat).filter (fun t => decide (m1 (i.env (i.jcol + k)) { st with nextl := (i.env (i.jcol + k)).off } t < (i.env (i.jcol + k)).jcol)) =
+      ((colPost i k).reverse.map Int.ofNat).filter (fun t => decide (t ∉ segSpec i k)) := by
+    apply filter_congr
+    intro t ht
+    obtain ⟨s, hs, rfl⟩ := mem_map.mp ht
+    have hs' := hlt s (mem_reverse.mp hs)
+    have hs'' : (s : Int) < i.jcol := hs'
+    have := hL.m1iff (Int.ofNat s) (by simp) hs''
+    show decide (rd st.marker (i.m + Int.ofNat s) < i.jcol) = decide (Int.ofNat s ∉ segSpec i k)
+    rw [decide_eq_decide]
+    constructor
+    · intro hlt' hin; have := this.mpr hin; omega
+    · intro hnin; by_contra hge; exact hnin (this.mp (by omega))
+  rw [hF] at hseg hm1
+  have hsegAll : slice ps'.segrep 0 ps'.nseg = segSpec i (k + 1) := by
+    rw [slice_append ps'.segrep (le_refl 0) hL.nseg0 hle, hpre, hseg]
+    show slice st.segrep 0 st.nseg ++ _ = _
+    rw [hL.seg]; rfl
+  refine ⟨ps', g, { szM := hszM, szR := by rw [hrsz]; exact hL.szR, szP := hszP, szX := hszX, szS := hszS, fresh := ?_, done := ?_,
+                    mark := ?_, nseg0 := le_trans hL.nseg0 hle, seg := hsegAll, sgnd := by rw [← hsegAll]; exact hnd,
+                    m1iff := ?_, segrng := ?_ }⟩
+  · intro x x0 x1
+    have : ((k + 1 : Nat) : Int) * i.m = k * i.m + i.m := by push_cast; rw [Int.add_mul, Int.one_mul]
+    rw [this] at x0
+    rw [hrfr x (Or.inr x0)]
+    have hk0 : 0 ≤ (k : Int) * i.m := Int.mul_nonneg (by omega) hm0
+    exact hL.fresh x (by omega) x1
+  · intro k' hk' s hs
+    by_cases hkk : k' = k
+    · subst hkk
+      have := hvis s hs
+      unfold fnz at this; rw [hoff] at this
+      exact this
+    · have hlt' : k' < k := by omega
+      have hb := mul_bound (k := k') (w := k) (m := i.m) (by omega) hm0
+      rw [hrfr _ (Or.inl (by omega))]
+      exact hL.done k' hlt' s hs
+  · intro r r0 r1
+    have := hL.mark r r0 r1
+    rcases hmfr r r0 r1 with hh | hh
+    · rw [hh]; show i.jcol + (k : Int) < i.jcol + ((k + 1 : Nat) : Int); omega
+    · rw [hh]; show rd st.marker r < i.jcol + ((k + 1 : Nat) : Int); omega
+  · intro t t0 t1
+    have h1 := hm1 t t0 t1
+    have hold := hL.m1iff t t0 t1
+    show i.jcol ≤ m1 (i.env (i.jcol + k)) ps' t ↔ t ∈ segSpec i (k + 1)
+    rw [h1]
+    show _ ↔ t ∈ segSpec i k ++ _
+    rw [mem_append]
+    by_cases hin : t ∈ ((colPost i k).reverse.map Int.ofNat).filter (fun t => decide (t ∉ segSpec i k))
+    · simp only [hin, if_true, or_true, iff_true]
+      show i.jcol ≤ i.jcol + (k : Int); omega
+    · simp only [hin, if_false, or_false]
+      exact hold
+  · intro t ht
+    rw [← hsegAll] at ht
+    exact ⟨(hrng t ht).1, (hrng t ht).2.1⟩
+
+theorem panelLoop_spec (h : wfPanelIn i = true) : ∀ (n k : Nat) (st : St) (dense : Array V), ((k + n : Nat) : Int) = i.w →
+    LoopInv i k st → ∃ st' dense', panelLoop i (fuelBound i) n (i.jcol + k) st dense = some (st', dense') ∧ LoopInv i (k + n) st'
+  | 0, k, st, dense, _, hL => ⟨st, dense, rfl, hL⟩
+  | n + 1, k, st, dense, hkn, hL => by
+    obtain ⟨ps', g, hL'⟩ := loop_step h (k := k) (by push_cast at hkn; omega) hL
+    obtain ⟨st', dense', g', hL''⟩ := panelLoop_spec h n (k + 1) ps' (scatter dense (i.env (i.jcol + k)).off (colEntries i (i.jcol + k)))
+      (by push_cast at hkn ⊢; omega) hL'
+    refine ⟨st', dense', ?_, by rw [show k + (n + 1) = k + 1 + n by omega]; exact hL''⟩
+    unfold panelLoop
+    simp only [g]
+    have : i.jcol + (k : Int) + 1 = i.jcol + ((k + 1 : Nat) : Int) := by push_cast; omega
+    rw [this]; exact g'
+
+/-- **`[sdcz]panel_dfs` = the recursive search, column by column** -/
+theorem panelDfs_spec (h : wfPanelIn i = true) :
+    ∃ o, panelDfs i (fuelBound i) = some o ∧
+      (∀ k : Nat, (k : Int) < i.w → ∀ s : Nat, (s : Int) < i.jcol → (rd o.repfnz (k * i.m + s) ≠ EMPTY ↔ s ∈ colPost i k)) ∧
+      0 ≤ o.nseg ∧ slice o.segrep 0 o.nseg = segSpec i i.w.toNat ∧ (segSpec i i.w.toNat).Nodup ∧
+      (∀ t ∈ segSpec i i.w.toNat, 0 ≤ t ∧ t < i.jcol) := by
+  obtain ⟨⟨a1, a2, a3, a4, a5⟩, _⟩ := wfPanelIn_unpack h
+  obtain ⟨st', dense', g, hL⟩ := panelLoop_spec h i.w.toNat 0 i.st0 i.dense (by rw [Nat.zero_add]; omega) (loopInv0 h)
+  have g' : panelLoop i (fuelBound i) i.w.toNat i.jcol i.st0 i.dense = some (st', dense') := by
+    have : i.jcol + ((0 : Nat) : Int) = i.jcol := by simp
+    rw [this] at g; exact g
+  rw [Nat.zero_add] at hL
+  refine ⟨{ nseg := st'.nseg, dense := dense', panelLsub := st'.panelLsub, segrep := st'.segrep, repfnz := st'.repfnz,
+             marker := st'.marker, parent := st'.parent, xplore := st'.xplore }, by simp only [panelDfs, g'], ?_, hL.nseg0, hL.seg, hL.sgnd, hL.segrng⟩
+  intro k hk s hs
+  exact hL.done k (by omega) s hs
+
+end panel
 
 end Slu.PanelDfs
